@@ -36,7 +36,7 @@ def independent_correlation(m, X):
     return R, const
 
 
-def fit_oracles(m, X):
+def fit_oracles(m, X, strict_cols=()):
     """list of (clause, description) violated by the fitted model m on training table X"""
     bad = []
     eps = float(np.finfo(np.float32).eps)
@@ -67,6 +67,10 @@ def fit_oracles(m, X):
         nonconst_col = len(set(X[c].to_numpy().tolist())) > 1
         if nonconst_col and not const[c] and abs(M[i, i] - 1.0) > eps + 1e-9:
             bad.append(('unit-diagonal', f'non-constant column {c!r}: diagonal {M[i, i]}'))
+        if nonconst_col and const[c] and c in strict_cols:
+            # a column with many distinct values and a location-scale marginal: the fitted marginal must not be degenerate
+            bad.append(('unit-diagonal', f'non-constant column {c!r} ({len(set(X[c].to_numpy().tolist()))} distinct values, range '
+                                         f'{float(np.ptp(X[c].to_numpy()))}) got a degenerate marginal: all normal scores coincide, diagonal {M[i, i]}'))
         if not nonconst_col:
             off = np.delete(M[i, :], i)
             off2 = np.delete(M[:, i], i)
@@ -103,19 +107,66 @@ def fit_oracles(m, X):
     return bad
 
 
-def fit_and_check(table, columns, cfg_name, seed):
+STRICT_CFGS = ('class', 'class-uniform', 'qualified-name', 'instance')     # location-scale families: never degenerate on non-constant data
+
+
+def fit_and_check(table, columns, cfg_name, seed, strict_cols=()):
     """replay entry point: fit the real class on the table with the named marginal configuration, return violated clauses"""
     X = pd.DataFrame({c: np.asarray(table[str(c)], dtype=float) for c in columns}, columns=list(columns))
     cfg = dict(G.marginal_configs(list(columns)))[cfg_name]
     m = G.new_model(cfg(), seed)
     with np.errstate(all='ignore'):
         m.fit(X)
-    return fit_oracles(m, X)
+    return fit_oracles(m, X, strict_cols)
 
 
-def repro(X, cfg_name, seed):
+def repro(X, cfg_name, seed, strict_cols=()):
     return ('from vf.props import C02\n'
-            f'bad = C02.fit_and_check({G.table_repr(X)!r}, {list(X.columns)!r}, {cfg_name!r}, {seed})\n'
+            f'bad = C02.fit_and_check({G.table_repr(X)!r}, {list(X.columns)!r}, {cfg_name!r}, {seed}, {list(strict_cols)!r})\n'
+            'print(bad)\nassert not bad\n')
+
+
+def history_and_container(table, columns, cfg_name, seed, container):
+    """HISTORY / CONTAINER oracle (replay entry point): fit(frame) ; fit(same values in another container) on ONE object must give the
+    same labels and matrix as a fresh model fitted on that container (an ndarray / list of rows is labelled 0..d-1, a frame with
+    permuted columns by its own header).  Returns a list of (clause, description)."""
+    X = pd.DataFrame({c: np.asarray(table[str(c)], dtype=float) for c in columns}, columns=list(columns))
+    cfg = dict(G.marginal_configs(list(columns)))[cfg_name]
+    d = X.shape[1]
+    if container == 'ndarray':
+        Y, exp = X.to_numpy(), list(range(d))
+    elif container == 'fortran':
+        Y, exp = np.asfortranarray(X.to_numpy()), list(range(d))
+    elif container == 'permuted-frame':
+        Y = X[list(X.columns)[::-1]]
+        exp = list(Y.columns)
+    elif container == 'narrower-ndarray':
+        Y, exp = X.to_numpy()[:, :d - 1], list(range(d - 1))
+    else:
+        raise ValueError(container)
+    bad = []
+    g, f = G.new_model(cfg(), seed), G.new_model(cfg(), seed)
+    try:
+        with np.errstate(all='ignore'):
+            g.fit(X)
+            g.sample(2)
+            g.fit(Y)
+    except Exception as ex:
+        return [('history-raises', f'fit(frame); sample; fit({container}) raised {type(ex).__name__}: {str(ex)[:120]}')]
+    with np.errstate(all='ignore'):
+        f.fit(Y)
+    for nm, m in (('re-fitted', g), ('fresh', f)):
+        if list(m.columns) != exp or list(m.correlation.index) != exp or list(m.correlation.columns) != exp:
+            bad.append(('labels', f'{nm} model after fit({container}): columns {list(m.columns)}, correlation labelled '
+                                  f'{list(m.correlation.index)} x {list(m.correlation.columns)}; the training table is labelled {exp}'))
+    if not bad and not np.allclose(g.correlation.to_numpy(), f.correlation.to_numpy(), rtol=0, atol=1e-12):
+        bad.append(('history', f'fit(frame); sample; fit({container}) gives a correlation different from a fresh fit({container})'))
+    return bad
+
+
+def repro_history(X, cfg_name, seed, container):
+    return ('from vf.props import C02\n'
+            f'bad = C02.history_and_container({G.table_repr(X)!r}, {list(X.columns)!r}, {cfg_name!r}, {seed}, {container!r})\n'
             'print(bad)\nassert not bad\n')
 
 
@@ -134,6 +185,9 @@ def designed_tables(rng):
     out.append((2, 6, ['const', 'const']))
     out.append((2, 12, ['base', 'near']))
     out.append((3, 12, ['base', 'mix', 'near']))
+    out.append((3, 40, ['base', 'offset', 'mix']))
+    out.append((4, 30, ['base', 'tiny', 'offset', 'mix']))
+    out.append((2, 25, ['offset', 'tiny']))
     return out
 
 
@@ -183,6 +237,8 @@ def run(ctx):
         labels = 'int' if k % 5 == 4 else 'str'
         X, kinds = G.make_table(rng, d, n, kinds, labels=labels, regular=(k % 2 == 1))
         cfg_name = cfg_names[k % len(cfg_names)]
+        if any(kk in ('offset', 'tiny') for kk in kinds):
+            cfg_name = STRICT_CFGS[k % len(STRICT_CFGS)]
         if cfg_name == 'default' and not quick and k % 18 != 0:
             cfg_name = 'class'          # the default (model selection) is slow; sampled more thinly in the thorough tier
         cols = list(X.columns)
@@ -203,9 +259,20 @@ def run(ctx):
         ctx.case(key, {**sample, 'cond': cap.cond[-1][1] if cap.cond else None,
                        'marginal_classes': [type(getattr(u, '_instance', None) or u).__name__ for u in m.univariates]}, nontrivial=nontrivial)
         # ---- witness search: the statement itself on the real object (always) ----
-        for clause, what in fit_oracles(m, X):
+        strict = [c for c, kk in zip(cols, kinds) if kk in ('offset', 'tiny')] if cfg_name in STRICT_CFGS else []
+        for clause, what in fit_oracles(m, X, strict):
             ctx.violation(f'oracle:{clause}', f'{clause}: {what} [{sample}]',
-                          {'clause': clause, 'sample': sample, 'table': G.table_repr(X), 'repro': repro(X, cfg_name, seed)})
+                          {'clause': clause, 'sample': sample, 'table': G.table_repr(X), 'repro': repro(X, cfg_name, seed, strict)})
+        # ---- witness search: history and container (a re-fit on another container must behave like a fresh fit) ----
+        if cfg_name in STRICT_CFGS + ('qualified-name-kde',) and (k % 3 == 0 or k < 12):
+            container = ['ndarray', 'permuted-frame', 'fortran', 'narrower-ndarray'][(k // 3) % 4]
+            hb = history_and_container(G.table_repr(X), cols, cfg_name, seed, container)
+            ctx.obligation(f'oracle:history-container:{k}:{container}', not hb, 'correspondence', '; '.join(b for _, b in hb))
+            ctx.case(('history', k, container), {**sample, 'history': f'fit(frame); sample(2); fit({container}) vs fresh fit({container})'})
+            for clause, what in hb:
+                ctx.violation(f'oracle:history:{clause}', f'{what} [{sample}]',
+                              {'clause': clause, 'sample': sample, 'container': container, 'table': G.table_repr(X),
+                               'repro': repro_history(X, cfg_name, seed, container)})
         # ---- correspondence ----
         ok_capture = len(cap.ppf) == 1 and len(cap.cond) == 1
         ctx.obligation(f'corr:capture:{k}', ok_capture, 'correspondence',
